@@ -57,6 +57,7 @@ package querylog
 //@   ensures line: r1 == nil ==> lineIs(r0, q.file, lineStart(q.file, old(q.position)), old(q.position))
 //@   ensures moves-to-previous-line: r1 == nil ==> q.position == max(0, lineStart(q.file, old(q.position)) - 1)
 //@   ensures invariant-kept: r1 == nil ==> window(q) && inWindow(q)
+//@   ensures moves-back: r1 == nil ==> 0 <= q.position && q.position <= old(q.position)
 //@   ensures !held(q.lock)
 
 //@ func (q *qLogFile) SeekStart() (r0 int64, r1 error)
@@ -118,6 +119,40 @@ package querylog
 //@   loop 1 invariant lineBoundary(q.file, start) && lineBoundary(q.file, end)
 //@   loop 1 invariant 0 <= depth && depth < 100 && q.buffer == nil && held(q.lock)
 //@   loop 1 decreases 100 - depth
+
+// ---- reading across files (rotated + current) ----
+// readable(q): the state in which (*qLogFile).ReadNext may be called - the position is inside the file and the buffer,
+// if any, is a window around it.  The reader keeps only its current file in that state: an older file is brought into it
+// (rewound to its end) at the moment the reader crosses into it, whichever way the current position was reached
+// (SeekStart or a timestamp seek).
+//@ define readable(q *qLogFile) bool = window(q) && inWindow(q) && 0 <= q.position && q.position <= os.fsize(q.file)
+//@ define filesOK(r *qLogReader) bool = forall k int :: {mark(k)} 0 <= k && k < len(r.qFiles) ==> r.qFiles[k] != nil && !held(r.qFiles[k].lock) && shortLines(r.qFiles[k].file)
+//@ func (r *qLogReader) ReadNext() (r0 string, r1 error)
+//@   property C20
+//@   requires -1 <= r.currentFile && r.currentFile < len(r.qFiles)
+//@   requires filesOK(r)
+//@   requires r.currentFile >= 0 ==> readable(r.qFiles[r.currentFile])
+//@   requires eof-sentinel: io.EOF != nil
+//@   ensures stays-readable: r1 == nil ==> 0 <= r.currentFile && r.currentFile <= old(r.currentFile) && readable(r.qFiles[r.currentFile])
+//@   ensures same-file-next-line: r1 == nil && r.currentFile == old(r.currentFile) ==> lineIs(r0, r.qFiles[r.currentFile].file, lineStart(r.qFiles[r.currentFile].file, old(r.qFiles[r.currentFile].position)), old(r.qFiles[r.currentFile].position))
+//@   ensures older-file-from-its-end: r1 == nil && r.currentFile < old(r.currentFile) ==> lineIs(r0, r.qFiles[r.currentFile].file, lineStart(r.qFiles[r.currentFile].file, max(0, os.fsize(r.qFiles[r.currentFile].file) - 1)), max(0, os.fsize(r.qFiles[r.currentFile].file) - 1))
+//@   modifies *
+//@   loop 1 invariant -1 <= r.currentFile && r.currentFile <= old(r.currentFile) && r.qFiles == old(r.qFiles) && filesOK(r)
+//@   loop 1 invariant r.currentFile >= 0 ==> readable(r.qFiles[r.currentFile])
+//@   loop 1 invariant r.currentFile >= 0 && r.currentFile < old(r.currentFile) ==> r.qFiles[r.currentFile].position == max(0, os.fsize(r.qFiles[r.currentFile].file) - 1)
+//@   loop 1 invariant r.currentFile == old(r.currentFile) && r.currentFile >= 0 ==> r.qFiles[r.currentFile].position == old(r.qFiles[r.currentFile].position)
+//@ func (r *qLogReader) SeekStart() (r0 error)
+//@   property C20
+//@   requires filesOK(r)
+//@   ensures r0 == nil && len(r.qFiles) > 0 ==> r.currentFile == len(r.qFiles) - 1 && readable(r.qFiles[r.currentFile])
+//@   modifies *
+//@ func (r *qLogReader) seekTS(ctx context.Context, timestamp int64) (err error)
+//@   property C20
+//@   requires filesOK(r)
+//@   ensures positioned: err == nil && len(r.qFiles) > 0 ==> 0 <= r.currentFile && r.currentFile < len(r.qFiles) && readable(r.qFiles[r.currentFile])
+//@   modifies *
+//@   loop 1 invariant -1 <= i && i < len(r.qFiles) && r.qFiles == old(r.qFiles) && filesOK(r)
+//@   loop 1 invariant i < len(r.qFiles) - 1 ==> err != nil
 
 // ---- C07: search, paging ----
 
